@@ -23,7 +23,7 @@ ASSUMPTIONS = [
     "virtual clock; AF_UNIX socketpairs as in C04",
     "a 'probe' of an entry point is a maximal run of identical frames with no delivery in between",
 ]
-MUST = ["same_command_repeated", "prefix_connections_refused", "prefix_idle_connection_dropped", "loop_change_previous_loop_open", "two_piece_answer_in_time", "lone_fragment_every_attempt", "slow_answer_in_time", "full_timeout_after_corrupt_answer", "final_silent_exact", "prefix_success_after_drops", "prefix_exhausted", "prefix_rejected", "prefix_send_error",
+MUST = ["prefix_drop_then_refused", "same_command_repeated", "prefix_connections_refused", "prefix_idle_connection_dropped", "loop_change_previous_loop_open", "two_piece_answer_in_time", "lone_fragment_every_attempt", "slow_answer_in_time", "full_timeout_after_corrupt_answer", "final_silent_exact", "prefix_success_after_drops", "prefix_exhausted", "prefix_rejected", "prefix_send_error",
         "prefix_recv_error", "loop_change", "connect_probe", "discover_probe", "search_probe", "search_answered", "detected_family_probe",
         "connected_then_silent"]
 EXHAUSTIVE = {"quick": True, "thorough": True}
@@ -32,7 +32,7 @@ EPS = 1e-6
 
 
 def classes(R):
-    cs = ["ok0", "okslow", "okfrag", "okdrop", "connref", "exh", "fragexh", "senderr", "recverr", "badlate_ok", "badlate_exh"]
+    cs = ["ok0", "okslow", "okfrag", "okdrop", "connref", "dropref", "exh", "fragexh", "senderr", "recverr", "badlate_ok", "badlate_exh"]
     cs += [f"ok{k}" for k in range(1, R + 1)]
     cs += [f"rej{j}" for j in range(0, R + 1)]
     return cs
@@ -48,6 +48,8 @@ def script_for(cls, R):
         return ["now"]
     if cls == "okslow":            # answered 0.6 T after the transmission: in time, one transmission
         return [["delay", "0.6T"]]
+    if cls == "dropref":           # TCP: first transmission unanswered, every later connection attempt of the request refused
+        return ["drop"] * 6
     if cls == "connref":           # TCP: the connection is closed first and every connection attempt of this request is refused
         return ["now"] * 6
     if cls == "okdrop":            # answered at once; afterwards the peer drops the idle connection (TCP FIN / UDP port closed)
@@ -88,6 +90,8 @@ def scenario(transport, ka, T, R, prefix, newloop, same_reg=False):
             steps.append(["arm_send_fault", errno.ENETUNREACH])
         if cls == "connref" and transport == "tcp":
             steps += [["close"], ["arm_connect", ["refused"] * (R + 1)]]
+        if cls == "dropref" and transport == "tcp":
+            steps += [["close"], ["arm_connect", ["ok"] + ["refused"] * R]]
         steps.append(["read", reg, 2])
         if cls == "okdrop" and transport == "tcp":       # (UDP has no idle drop: an ICMP error only ever answers a datagram that was sent)
             steps.append(["peerdrop"])
@@ -188,6 +192,15 @@ def check_history(sc, run, part: Part):
                                 f"timeout), yet the request ended {rec['outcome']} at +{round(rec['t1'] - rec['t0'], 6)}"))
                 else:
                     part.count("full_timeout_after_corrupt_answer")
+        elif cls == "dropref":
+            if tr == "tcp":
+                conns = [e for e in engine.events_of_call(run, rec["id"]) if e[1] == "connect"]
+                if rec["outcome"] != "RequestFailedException" or len(txt) + len([e for e in conns if e[3] != "ok"]) != R + 1:
+                    out.append((f"C05/{tr}/refused-connections-outcome",
+                                f"{ctx}: first transmission unanswered, reconnects refused: outcome {rec['outcome']}, {len(txt)} transmissions and "
+                                f"{len(conns)} connection attempts ({[e[3] for e in conns]}), expected {R + 1} attempts in total"))
+                else:
+                    part.count("prefix_drop_then_refused")
         elif cls == "connref":
             if tr == "tcp":
                 if rec["outcome"] != "RequestFailedException" or txt:
